@@ -330,14 +330,19 @@ def observe_fit(idnt, kwargs, label="", post=None, fault=False):
         dopt = float(fp["optimal_fit_delta"])
         scan["dopt_inside"] = bool(d.min() <= dopt <= d.max())
         lastp = passes[-1]["range_x"] if passes else [np.nan, np.nan]
-        # (when the requested upper bound lies inside the scanned depths the
-        # interval [depth, upper] can be given the other way round)
-        scan["final_lo_is_dopt"] = bool(dopt in [float(v) for v in lastp]) \
+        # every pass of the search fits between a depth of the grid and the
+        # requested UPPER bound (max of the pair; either may be written
+        # first when the upper bound lies inside the scanned depths)
+        upper = float(max(req)) if len(req) == 2 else 0.
+
+        def is_pair(iv, depth):
+            return sorted(float(v) for v in iv) == sorted([float(depth),
+                                                           upper])
+        scan["final_lo_is_dopt"] = bool(is_pair(lastp, dopt)) \
             if passes else True
         scan["passes_follow_grid"] = bool(
             len(passes) == len(d) + 1 and
-            all(float(d[i]) in [float(v) for v in passes[i]["range_x"]]
-                for i in range(len(d))))
+            all(is_pair(passes[i]["range_x"], d[i]) for i in range(len(d))))
     out["scan"] = scan
     # ------------------------------------------------ C04 relation flags
     rel = {"fit_is_model": True, "nan_outside_segment": True,
